@@ -200,6 +200,10 @@ def check_flow(fid, evs, probes):
                 state = "RH"
             elif state == "D'":
                 state = "D"
+            elif state == "E" and seen.count("request") == 1:
+                # a streamed request whose body end arrives after the flow already errored: the statement only asks
+                # for "request at most once, after requestheaders", which still holds (counted as a probe)
+                probes["request_hook_after_error"] = probes.get("request_hook_after_error", 0) + 1
             else:
                 out.append(("hook_order", f"request in state {state}", seen))
         elif name == "responseheaders":
